@@ -1,0 +1,6 @@
+//go:build !verif
+
+package ecs
+
+// verifPoint is a no-op without build tag `verif`.
+func verifPoint(site int) { _ = site }
